@@ -151,8 +151,22 @@ def check(ctx) -> Result:
             f"`{src(lit[0]) if lit else ''}` gives a particular label value a meaning, but labels are renumbered by order of first appearance before they arrive here: photons sharing a non-zero label would no longer be grouped (their interference is lost)", construct=src(lit[0]) if lit else "")
     bs = S.methods["_build_statistics"]
     tb = src(bs.node).replace(" ", "")
-    res.add("thresholded_dict[s]=p/total" in tb and "total=sum(thresholded_dict.values())" in tb and "ifp>=self.probability_threshold" in tb, "G-threshold-renormalises", "_build_statistics", bs.site(), bs.qualname, "kept weights are divided by the kept total", "threshold path does not renormalise over exactly the kept inputs", construct="threshold")
-    res.add("ifself.purity==1andself.indistinguishability==1:" in tb, "Kp-ideal-limit", "_build_statistics:fast path", bs.site(), bs.qualname, "brightness-only fast path is taken exactly when purity = indistinguishability = 1", "fast-path condition changed", construct="fast path")
+    rg_mass.renormalise_kept(ctx, res, bs, "G-threshold-renormalises", "_build_statistics", "kept weights are divided by the kept total", "threshold path does not renormalise over exactly the kept inputs")
+    from ..guards import Lit as _Lit, Normaliser as _N, canon as _canon, cnf as _cnf
+    from ..inline import with_helpers as _wh
+    _nrm = _N(lambda e: repr(e.value) if isinstance(e, ast.Constant) else None)
+    fast = None
+    for n_ in walk_no_nested(_wh(ctx, bs, inline_locals=False).node):
+        if isinstance(n_, ast.If) and any(isinstance(c, ast.Call) and isinstance(c.func, ast.Attribute) and "basic" in c.func.attr for b_ in n_.body + n_.orelse for c in ast.walk(b_)):
+            fast = n_
+    if fast is None:
+        res.frozen(False, "Kp-ideal-limit", "_build_statistics:fast path", bs.site(), bs.qualname, "", "brightness-only fast path not recognised", construct="fast path")
+    else:
+        want = {frozenset({_canon("==", "self.purity", "1")}), frozenset({_canon("==", "self.indistinguishability", "1")})}
+        in_body = any(isinstance(c, ast.Call) and isinstance(c.func, ast.Attribute) and "basic" in c.func.attr for b_ in fast.body for c in ast.walk(b_))
+        got = set(_cnf(fast.test, _nrm, negate=not in_body))
+        res.add(got == want, "Kp-ideal-limit", "_build_statistics:fast path", bs.site(fast), bs.qualname, "brightness-only fast path is taken exactly when purity = indistinguishability = 1",
+                f"brightness-only fast path is taken under `{src(fast.test)}`", construct=src(fast.test))
     # ---- validators
     norm = Normaliser(lambda e: repr(e.value) if isinstance(e, ast.Constant) else None)
     qc = ctx.func(SRC, "quantity_check")
